@@ -134,7 +134,9 @@ class Matcher(Expression):
         return False
 
     def __str__(self):
-        return self.pattern
+        # -- ESCAPE: Same as :class:`Literal` (backslash, parenthesis, whitespace)
+        #    ENSURE: Textual form can be parsed again, like: "{config.tags}".
+        return str(Literal(self.pattern))
 
     def __repr__(self):
         return "Matcher('%s')" % self.pattern
